@@ -180,9 +180,13 @@ class Server(base_server.BaseServer):
                 if sid in self.sockets:  # pragma: no cover
                     del self.sockets[sid]
         else:
-            for client in self.sockets.copy().values():
+            clients = self.sockets.copy()
+            for client in clients.values():
                 client.close(reason=self.reason.SERVER_DISCONNECT)
-            self.sockets = {}
+            # only forget the clients that were closed above, not the ones
+            # that connected in the meantime
+            for sid in clients:
+                self.sockets.pop(sid, None)
 
     def handle_request(self, environ, start_response):
         """Handle an HTTP request from the client.
